@@ -145,7 +145,7 @@ def models():
     pt = C('Pt', [P('x', INT), P('y', STR, ['str', 'dflt'])])
     ms.append(M('plain', [pt], [K('Pt'), L(K('Pt')), D(K('Pt')),
                                 U(K('Pt'), INT), Opt(K('Pt')),
-                                U(K('Pt'), D(INT))],
+                                U(K('Pt'), D(INT)), U(INT, STR)],
                 keys=['x', 'y', 'z'], scalars=[S_42, S_ABC, S_15],
                 mtags=('map', '!Pt', '!Unknown'), oddkeys=[S_42], tn=5,
                 rtypes=[K('Pt'), L(K('Pt')), D(K('Pt')), U(K('Pt'), INT),
@@ -154,8 +154,10 @@ def models():
     ex = C('Ex', [P('a', INT), P('u'), P('w', ANY, ['null'])], extra=True)
     inner = C('In', [P('v', INT)])
     ms.append(M('extra', [ex, inner], [K('Ex')],
-                keys=['a', 'u', 'w', 'q', 'v'], scalars=[S_42, S_ABC],
-                mtags=('map', '!In', '!Unknown'), stags=['!In', '!Unknown'],
+                keys=['a', 'u', 'w', 'q', 'v', '_yatiml_extra'],
+                scalars=[S_42, S_ABC],
+                mtags=('map', '!In', '!Unknown', '!Ex'),
+                stags=['!In', '!Unknown'],
                 oddkeys=[S_42], qo=6, to=7, strs=['abc', '42'], tn=5))
     # ---- dashed keys with and without dashes_to_unders ---------------------
     da = C('Da', [P('my_attr', INT), P('o_p', STR, ['str', 'd'])])
@@ -177,6 +179,7 @@ def models():
     ms.append(M('enum_str', [col, sl, us, holder, hd],
                 [K('Col'), K('Sl'), K('Us'), K('Ho'), K('Hd'), L(K('Col')),
                  U(K('Col'), INT), U(BOOL, K('Col')), U(K('Col'), BOOL),
+                 U(BOOL, K('Sl')), U(K('Us'), BOOL),
                  D(INT, K('Sl')), D(K('Col'), K('Us'))],
                 keys=['c', 's', 'red', 'm', 'k'],
                 scalars=[S_RED, S_BLUE, S_ABC, S_TRUE, S_42],
@@ -466,6 +469,62 @@ def models():
                                    D(K('Ys'), K('Ys'))],
                 keys=['s', 'd', 'red'], scalars=[S_RED, S_ABC, S_42],
                 stags=['!Ys'], strs=['red'], qn=4, tn=5, qo=4, to=5))
+    # ---- round 5 -------------------------------------------------------------------
+    # a derived class whose only additional parameter starts with an underscore
+    ub = C('Ub', [P('n', STR)])
+    ud = C('Ud', [P('n', STR), P('_lv', INT)], bases=['Ub'])
+    ms.append(M('underhier', [ub, ud], [K('Ub'), U(K('Ub'), INT)],
+                keys=['n', '_lv'], scalars=[S_ABC, S_42], qn=5, tn=5,
+                rootk='m', nodup=True))
+    # an enum whose savorize fails
+    er = C('Er', kind='enum', members=['red', 'blue'], sav=['raise_seasoning'])
+    he = C('He', [P('e', K('Er'))])
+    ms.append(M('enumsav', [er, he], [K('Er'), K('He'), L(K('Er'))],
+                keys=['e'], scalars=[S_RED, S_42], qn=4, tn=4, rtypes=[]))
+    # one scalar shared between a float and an int position
+    fi = C('Fi', [P('f', FLOAT), P('i', INT)])
+    ms.append(M('floatint', [fi], [K('Fi'), L(U(INT, FLOAT))], keys=['f', 'i'],
+                scalars=[S_42, S_15], qn=5, tn=5, an=5, aliask=('s',),
+                cyc=False, rtypes=[]))
+    # an object whose LAST attribute is an enum member (PyYAML's alias_key)
+    cz = C('Cz', kind='enum', members=['red', 'blue'])
+    hz = C('Hz', [P('n', INT), P('c', K('Cz'))])
+    ms.append(M('lastenum', [cz, hz], [K('Hz'), L(K('Hz'))], keys=['n', 'c'],
+                scalars=[S_42, S_RED], strs=['red'], family='dump', qn=1, tn=1,
+                qo=7, to=7))
+    # seasoning helpers inside savorize: explored by the text fuzzer only
+    # (family 'fuzz' is not part of any TLC configuration)
+    it2 = C('It2', [P('id', STR), P('price', INT, ['int', '0']),
+                    P('desc', STR, ['str', 'd'])])
+    hq = C('Hq', [P('items', D(K('It2')))], recog=['require_attr', 'items'],
+           sav=['seq_to_map', 'items', 'id'])
+    hm = C('Hm', [P('items', L(K('It2')))], recog=['require_attr', 'items'],
+           sav=['map_to_seq', 'items', 'id', 'price'])
+    hi = C('Hi', [P('items', D(K('It2')))], recog=['require_attr', 'items'],
+           sav=['map_to_index', 'items', 'id', 'price'])
+    ms.append(M('season', [it2, hq, hm, hi], [K('Hq'), K('Hm'), K('Hi')],
+                keys=['items', 'id', 'price', 'desc'], scalars=[S_42, S_ABC],
+                family='fuzz', qn=1, tn=1, rtypes=[]))
+    # unusual spellings of scalar values, for the value requirements of
+    # UnknownNode (family 'req': explored by MC_Require only)
+    ms.append(M('reqvals', [], [ANY], keys=['a', 'b'],
+                scalars=[['bool', 'true'], ['bool', 'yes'], ['bool', 'false'],
+                         ['bool', 'abc'], ['str', 'yes'], ['int', '42'],
+                         ['int', '0x1F'], ['null', '~'], ['null', 'null']],
+                family='req', qn=5, tn=5, rootk='m', rtypes=[]))
+    # an index (dict of objects that know their own key) with the documented
+    # pair of seasoning helpers, items with default-value removal
+    u4 = C('U4', kind='userstring')
+    em = C('Em', [P('role', STR), P('hours', INT, ['int', '42']),
+                  P('name', K('U4'), ['strlike', 'U4', 'dflt'])],
+           swe=['remove_defaults', 'Em'])
+    co = C('Co', [P('emps', D(K('Em')))],
+           sav=['map_to_index', 'emps', 'name'],
+           swe=['index_to_map', 'emps', 'name', 'hours'])
+    ms.append(M('indexrt', [u4, em, co], [K('Co')],
+                keys=['abc', 'emps', 'role', 'hours', 'name'],
+                scalars=[S_42, S_ABC, S_7], strs=['abc'], family='dumpinv',
+                qn=1, tn=1, qo=8, to=8))
     # ---- long and unusual strings as attributes of an object -------------------
     ls = C('Ls', [P('d', STR), P('e', STR, ['str', 'abc'])])
     ms.append(M('longstr', [ls], [K('Ls'), L(STR), D(STR)], keys=['d', 'e'],
